@@ -24,7 +24,7 @@ ASSUMPTIONS = [
     "generated curves are monotone non-decreasing sequences of 257 values in 0..0x8000",
 ]
 REQUIRED_LABELS = {
-    "quick": ["macro_single", "macro_multi", "macro_too_many", "macro_duplicate", "axis_normal", "axis_reversed", "unset_mapping_link", "curve_custom", "quantized", "convert_direct", "freed_slot_link", "link_to_controllerless_module", "multictl_out_offset_negative", "multictl_out_offset_set"],
+    "quick": ["macro_single", "macro_multi", "macro_too_many", "macro_duplicate", "axis_normal", "axis_reversed", "unset_mapping_link", "curve_custom", "quantized", "convert_direct", "freed_slot_link", "link_to_controllerless_module", "multictl_out_offset_negative", "multictl_out_offset_set", "compact_target_before_other_target", "mixed_range_kinds_in_one_fanout"],
     "thorough": ["macro_single", "macro_multi", "macro_too_many", "macro_duplicate", "axis_normal", "axis_reversed", "unset_mapping_link", "curve_custom", "quantized", "convert_direct", "compact_target"],
 }
 
@@ -197,10 +197,15 @@ def curve_strategy(draw):
 @st.composite
 def axis_case(draw):
     tg = ranged_targets()
-    n = draw(st.integers(1, 3))
+    # the kinds of range are mixed within one fan-out (compact, negative minimum, no-offset, span 32768, ordinary)
+    classes = {}
+    for t in tg:
+        k = "compact" if t[3] == "compact" else "no_offset" if t[3] == "no_offset" else "negmin" if t[4] < 0 else "span32768" if t[5] - t[4] == 32768 else "ordinary"
+        classes.setdefault(k, []).append(t)
+    n = draw(st.integers(1, 4))
     targets = []
     for _ in range(n):
-        t = draw(st.sampled_from(tg))
+        t = draw(st.one_of(st.sampled_from(tg), st.sampled_from(sorted(classes)).flatmap(lambda k: st.sampled_from(classes[k]))))
         span = t[5] - t[4]
         hi = span if t[3] == "compact" else 32768
         a = draw(vs.edge_int(0, hi, extra=(1, hi - 1, hi // 2)))
@@ -291,6 +296,11 @@ def run_axis_case(ctx, case, stride=1):
         labels.add("curve_custom")
     if case["quantization"] < 32768:
         labels.add("quantized")
+    kinds = [("compact" if t["kind"] == "compact" else "other") for t in case["targets"]]
+    if "compact" in kinds and "other" in kinds[kinds.index("compact") + 1 :]:
+        labels.add("compact_target_before_other_target")
+    if len({(t["kind"], t["min"] < 0) for t in case["targets"]}) > 1:
+        labels.add("mixed_range_kinds_in_one_fanout")
     for k, v in case.get("others", {}).items():
         labels.add("multictl_%s_%s" % (k, "negative" if v < 0 else "set"))
     return labels
